@@ -119,6 +119,10 @@ var failClasses = []failClass{
 	{"arg-kind:interface-with-methods", `{{ strfn(n) }}`, true, true},
 	{"arg-kind:interface-with-methods:piped", `{{ s | strfn }}`, true, true},
 	{"arg-count:piped-into-func-without-parameters", `{{ s | nofn }}`, true, true},
+	{"arg-count:func-without-parameters", `{{ nofn(1, 2) }}`, true, true},
+	{"range-subject-kind:zero-string", `{{ range zstr }}{{ else }}{{ end }}`, true, true},
+	{"range-subject-kind:zero-int", `{{ range zint }}{{ else }}{{ end }}`, true, true},
+	{"range-subject-kind:zero-struct", `{{ range zst }}{{ else }}{{ end }}`, true, true},
 	{"invalid-value-piped-into-placeholder:go-func-variadic", `{{ item.M.absent | vfn(1, _) }}`, true, true},
 	{"range-two-vars-indexless:assign", `{{ zza, zzb := 1, 2 }}{{ range zza, zzb = plain }}{{ end }}`, true, true},
 	{"underscore-without-piped-value:after-failed-pipe", `{{ try }}{{ s | repeat(zzNope) }}{{ end }}{{ upper(_) }}`, true, true},
